@@ -431,11 +431,16 @@ def post (c : Cfg) (h : Hyps) (k : LeafKind) (o : Opts) (a : AState) : AState :=
       { a with f2 := a.pd2 || (a.looseMQ && a.f2) || (!c.m.swapNative && decide (3 ≤ a.wHi)),
                fMany := a.pdMany || (a.looseMQ && a.fMany),
                nMany := a.pdNMany || a.nMany, fSQ := a.pdSQ || a.fSQ,
-               uncoupled := (a.hidden && !c.m.allToAll) || a.noModel,
+               uncoupled := (a.hidden && !c.m.allToAll) || a.noModel
+                 || ((a.pdNMany || a.pdMany || (a.looseMQ && (a.nMany || a.fMany)))
+                     && !c.m.allToAll),
                mapped := true, tgtBad := true, measHazard := a.measHazard || a.meas }
   | .sabreRouting =>
+      -- a >= 3-qudit gate is routed onto a CONNECTED set of qudits, which need not be pairwise
+      -- coupled (is_compatible demands every pair of a location to be an edge)
       { a with f2 := a.f2 || (!c.m.swapNative && !c.m.allToAll && decide (3 ≤ a.wHi)),
-               uncoupled := (a.hidden && !c.m.allToAll) || a.noModel,
+               uncoupled := (a.hidden && !c.m.allToAll) || a.noModel
+                 || ((a.nMany || a.fMany) && !c.m.allToAll),
                mapped := true, tgtBad := true, measHazard := a.measHazard || a.meas }
   | .applyPlacement =>
       { a with narrow := a.noModel, wLo := c.m.width, wHi := c.m.width, mapped := true,
